@@ -11,6 +11,8 @@
 //!                                      records the indexer builds on them
 //!   rd  <file>                         records read by fasta::io::Reader::records (or the records
 //!                                      so far and the error class); rdw = same, verdict skip
+//!   np  <file>                         the naive whole-file parse (the truth of the L3 oracle) as
+//!                                      the Coq definition NV.Fasta.Layout.naive_file states it
 //!   qd  <file> <cap> <script> <regions> each region through a fresh IndexedReader over
 //!                                      BufReader::with_capacity(cap, ScriptedReader(file, script)):
 //!                                      script = delivery events (`k` = at most k bytes, `i` =
@@ -90,6 +92,52 @@ fn naive_parse(f: &[u8]) -> Option<Vec<NRec>> {
         i = j;
     }
     Some(recs)
+}
+
+/// The Coq definition naive_file, literally: one (name, bases) per line starting with '>', lines
+/// before the first one ignored, a malformed definition has the empty name.
+fn naive_records_total(f: &[u8]) -> Vec<(Vec<u8>, Vec<u8>)> {
+    let mut recs: Vec<(Vec<u8>, Vec<u8>)> = Vec::new();
+    let mut i = 0;
+    while i < f.len() {
+        let j = f[i..].iter().position(|&b| b == b'\n').map(|p| i + p + 1).unwrap_or(f.len());
+        let raw = &f[i..j];
+        if raw[0] == b'>' {
+            let mut c = raw;
+            if c.last() == Some(&b'\n') {
+                c = &c[..c.len() - 1];
+                if c.last() == Some(&b'\r') {
+                    c = &c[..c.len() - 1];
+                }
+            }
+            let n: Vec<u8> = c[1..].iter().copied().take_while(|&b| !is_ws(b)).collect();
+            recs.push((n, vec![]));
+        } else if let Some(r) = recs.last_mut() {
+            let mut c = raw;
+            if c.last() == Some(&b'\n') {
+                c = &c[..c.len() - 1];
+            }
+            if c.last() == Some(&b'\r') {
+                c = &c[..c.len() - 1];
+            }
+            r.1.extend_from_slice(c);
+        }
+        i = j;
+    }
+    recs
+}
+
+fn run_np(f: &[u8]) -> Obs {
+    let total = naive_records_total(f);
+    let obs = total.iter().map(|(n, b)| format!("{}:{}", hex(n), hex(b))).collect::<Vec<_>>().join(";");
+    let obs = if obs.is_empty() { "none".to_string() } else { obs };
+    if let Some(naive) = naive_parse(f) {
+        let same = naive.len() == total.len() && naive.iter().zip(&total).all(|(a, b)| a.name == b.0 && a.bases == b.1);
+        if !same {
+            return Obs::fail(obs, "naive-parse-definitions-disagree", format!("{} vs {}", naive.len(), total.len()));
+        }
+    }
+    Obs::ok(obs, total.len() > 1)
 }
 
 /// every line but the last has the geometry of the first, the last has at most that; >= 1 base
@@ -1011,6 +1059,7 @@ fn run(c: &Case) -> Obs {
             Obs { obs: fmt_results(&res), verdict: "skip".into(), nontrivial: false }
         }
         "qd" => run_qd(c),
+        "np" => run_np(&c.b(0)),
         "wr" => run_wr(c),
         "rd" => run_rd(&c.b(0), true),
         "rdw" => run_rd(&c.b(0), false),
@@ -1425,6 +1474,7 @@ fn push_file_cases(rng: &mut Rng, w: &mut CaseWriter, f: &[u8], with_queries: bo
     let mode = gen_mode(rng);
     w.push("idx", vec![hex(f), mode.clone()]);
     w.push("rd", vec![hex(f)]);
+    w.push("np", vec![hex(f)]);
     if !with_queries {
         return;
     }
@@ -1647,6 +1697,7 @@ fn generate(rng: &mut Rng, tier: &str, w: &mut CaseWriter) {
         let mut r = rng.fork();
         w.push("idx", vec![hex(f), "c0".into()]);
         w.push("rd", vec![hex(f)]);
+        w.push("np", vec![hex(f)]);
         if let Some(naive) = naive_parse(f) {
             let (mut rin, mut rbe) = (Vec::new(), Vec::new());
             for n in naive.iter().filter(|n| !n.bases.is_empty()) {
@@ -1679,6 +1730,7 @@ fn generate(rng: &mut Rng, tier: &str, w: &mut CaseWriter) {
         }
         w.push("idxw", vec![hex(&f), "c0".into()]);
         w.push("rdw", vec![hex(&f)]);
+        w.push("np", vec![hex(&f)]);
         if let Some(naive) = naive_parse(&f) {
             let (mut rin, mut rbe) = (Vec::new(), Vec::new());
             for n in naive.iter().filter(|n| !n.bases.is_empty()) {
